@@ -71,10 +71,16 @@ def main() -> int:
             ck.notes.append("correspondence streams widened to the thorough scope because of that change")
     try:
         mod.check(ck)
-    except Exception:  # an internal error of the machinery is not a verdict: exit 2
-        traceback.print_exc()
-        print(f"[{prop}] internal error in the check machinery", file=sys.stderr)
-        return 2
+    except Exception as e:  # noqa: BLE001
+        # The harness calls the real code and hooks into some of its private names; when it dies (a renamed attribute, a
+        # changed signature, an exception of the real code on a path no stream guards), the correspondence between model
+        # and implementation was NOT established for this tree: the property is no longer shown to hold.  That is
+        # reported as such - with the concrete failing inputs found before the failure, if any - and never as silence.
+        tb = traceback.format_exc()
+        sys.stderr.write(tb)
+        last = traceback.extract_tb(e.__traceback__)[-1]
+        ck.proof_failures.append(f"correspondence harness of {prop} did not complete: {type(e).__name__}: {e} "
+                                 f"(at {last.filename.split('/')[-1]}:{last.lineno} {last.name}); traceback tail: {tb[-1500:]}")
     return ck.finish()
 
 
